@@ -6,6 +6,7 @@ import (
 	"encoding/json"
 	"fmt"
 	"math/big"
+	"os"
 	"strings"
 	"time"
 
@@ -429,5 +430,184 @@ func c03BinaryMinBalanceUnits() vh.Unit {
 			}
 		}
 		u.Sample("real binary: 12 unit names x minimum of -10 / -1 units, price one unit per second given in bare wei")
+	}}
+}
+
+// The pool binary wired to a payment contract (--contract.rpc / --contract.address /
+// --contract.keystore), against a chain node the harness serves (vh.ChainNode: the real contract
+// on go-ethereum's simulated chain). What the wallets hold on chain counts towards the minimum
+// balance (C03); a withdrawal reaches the wallet exactly once, also when the Ethereum node's reply
+// to the settlement transaction is lost (C07).
+func binaryWithContract() vh.Unit {
+	return vh.Unit{Name: "wire/binary-with-contract", Run: func(u *vh.U) {
+		ids := vh.Identities()
+		client, host, w1, w2 := ids[0], ids[1], ids[3], ids[4]
+		node, err := vh.NewChainNode(w1, w2)
+		if err != nil {
+			u.R.Infra = "chain node: " + err.Error()
+			return
+		}
+		defer node.Close()
+		dir := vh.Scratch("c07bin-")
+		defer os.RemoveAll(dir)
+		ksPath, err := node.OperatorKeystore(dir, "verif-passphrase")
+		if err != nil {
+			u.R.Infra = "keystore: " + err.Error()
+			return
+		}
+		ether := func(n int64) *big.Int { return new(big.Int).Mul(big.NewInt(n), big.NewInt(1e18)) }
+		fee := big.NewInt(2500000000000000) // the binary's fixed withdrawal fee (pool.go)
+		if err := node.Deposit(w1, ether(2)); err != nil {
+			u.R.Infra = "deposit: " + err.Error()
+			return
+		}
+		if err := node.Deposit(w2, ether(1)); err != nil {
+			u.R.Infra = "deposit: " + err.Error()
+			return
+		}
+		p, err := vh.StartPoolEnv("", []string{"KEYSTORE_PASSPHRASE=verif-passphrase"}, "--store=memory",
+			"--contract.rpc="+node.URL, "--contract.address=rinkeby://"+node.Address.Hex(), "--contract.keystore="+ksPath,
+			"--contract.min-balance=1 ether", "--contract.price=100 gwei")
+		if err != nil {
+			u.R.Infra = "pool with contract: " + err.Error()
+			return
+		}
+		s := &binSession{p: p, hosts: map[string]*vh.HostConn{}}
+		s.cws, err = p.DialWS()
+		if err != nil {
+			p.Stop()
+			u.Violate("wire/websocket-dial-failed", err.Error(), nil)
+			return
+		}
+		defer s.close()
+		desc := "vipnode pool --contract.rpc=<chain node> --contract.address=rinkeby://<contract> --contract.keystore=<operator> --contract.min-balance=\"1 ether\""
+		account := func(w *vh.Ident) (deposit, credit *big.Int, err error) {
+			_, body, err := p.Post(fmt.Sprintf(`{"jsonrpc":"2.0","id":1,"method":"pool_account","params":[%q]}`, w.Wallet))
+			if err != nil {
+				return nil, nil, err
+			}
+			var r struct {
+				Result struct {
+					Balance struct {
+						Deposit json.Number `json:"deposit"`
+						Credit  json.Number `json:"credit"`
+					} `json:"balance"`
+				} `json:"result"`
+			}
+			d := json.NewDecoder(strings.NewReader(body))
+			d.UseNumber()
+			if err := d.Decode(&r); err != nil {
+				return nil, nil, fmt.Errorf("%v: %s", err, firstN(body, 200))
+			}
+			dep, ok1 := new(big.Int).SetString(r.Result.Balance.Deposit.String(), 10)
+			cre, ok2 := new(big.Int).SetString(r.Result.Balance.Credit.String(), 10)
+			if !ok1 || !ok2 {
+				return nil, nil, fmt.Errorf("pool_account: %s", firstN(body, 200))
+			}
+			return dep, cre, nil
+		}
+		// --- C03: the on-chain deposit counts
+		connect := func() (*vh.RPCReply, error) {
+			r, _, _, err := s.clientCall(vh.NewCall("vipnode_connect", client, vh.WireNonce(), vh.DefaultParam("vipnode_connect", "")))
+			return r, err
+		}
+		r, err := connect()
+		wireStep(u)
+		if err != nil {
+			u.Violate("wire/read-failed", err.Error(), nil)
+			return
+		}
+		if r.Code() == 0 {
+			u.Violate("wire/client-below-minimum-admitted", desc+": a client without wallet or balance was admitted", nil)
+			return
+		}
+		if r, err := s.post(vh.NewCall("pool_addNode", w1, vh.WireNonce(), client.NodeID)); err != nil || r.Code() != 0 {
+			u.Violate("wire/session-step-failed", fmt.Sprintf("wallet 1 links the client: %v %+v", err, r), nil)
+			return
+		}
+		dep, _, err := account(w1)
+		wireStep(u)
+		if err != nil || dep.Cmp(ether(2)) != 0 {
+			u.Violate("wire/on-chain-deposit-not-reported", fmt.Sprintf("%s: wallet 1 holds 2 ether in the contract, pool_account reports deposit %v (%v)", desc, dep, err), nil)
+			return
+		}
+		r, err = connect()
+		wireStep(u)
+		if err != nil || r.Code() != 0 {
+			u.Violate("wire/funded-client-refused", fmt.Sprintf("%s: the client's wallet holds 2 ether on chain (pool_account agrees), the client was refused: %v %+v", desc, err, r), nil)
+			return
+		}
+		if r, _, _, err := s.hostCall(host, vh.NewCall("vipnode_connect", host, vh.WireNonce(), pool2ConnectHost())); err != nil || r.Code() != 0 {
+			u.Violate("wire/session-step-failed", fmt.Sprintf("host registers: %v %+v", err, r), nil)
+			return
+		}
+		for i := 0; i < 2; i++ {
+			time.Sleep(600 * time.Millisecond)
+			r, _, _, err := s.clientCall(vh.NewCall("vipnode_update", client, vh.WireNonce(), vh.DefaultParam("vipnode_update", host.NodeID)))
+			wireStep(u)
+			if err != nil || r.Code() != 0 {
+				u.Violate("wire/funded-client-cut-off", fmt.Sprintf("%s: keep-alive %d of the client whose wallet holds 2 ether was refused: %v %+v", desc, i+1, err, r), nil)
+				return
+			}
+		}
+		// --- C07: a withdrawal whose settlement transaction is accepted by the node while the reply
+		// is lost: the wallet gets its money once
+		withdraw := func(w *vh.Ident) (*vh.RPCReply, error) {
+			return s.post(vh.NewCall("pool_withdraw", w, vh.WireNonce(), nil))
+		}
+		_, funds2 := node.OnChain(w2)
+		contractBefore := node.ContractFunds()
+		node.LoseSendReplies.Store(1)
+		r1, err1 := withdraw(w2)
+		node.LoseSendReplies.Store(0)
+		r2, err2 := withdraw(w2) // the wallet's owner tries again
+		wireStep(u)
+		if err1 != nil || err2 != nil {
+			u.Violate("wire/read-failed", fmt.Sprint(err1, err2), nil)
+			return
+		}
+		dep2, funds2After := node.OnChain(w2)
+		received := new(big.Int).Sub(funds2After, funds2)
+		owed := new(big.Int).Sub(ether(1), fee)
+		paidOut := new(big.Int).Sub(contractBefore, node.ContractFunds())
+		u.Observe(fmt.Sprintf("lossy withdraw: first=%d second=%d received=%s", r1.Code(), r2.Code(), received))
+		if received.Cmp(owed) > 0 || paidOut.Cmp(owed) > 0 {
+			u.Violate("wire/withdrawal-paid-more-than-owed", fmt.Sprintf("%s: wallet 2 deposited 1 ether; its withdrawal was sent while the Ethereum node accepted transactions but lost the replies, then once more: the wallet received %s wei, the contract paid out %s wei, owed %s (deposit left in the contract: %s; settlement transactions accepted: %d)", desc, received, paidOut, owed, dep2, node.Sent.Load()), nil)
+			return
+		}
+		if received.Sign() != 0 && received.Cmp(owed) != 0 {
+			u.Violate("wire/withdrawal-wrong-amount", fmt.Sprintf("%s: wallet 2 received %s wei, owed %s", desc, received, owed), nil)
+			return
+		}
+		// --- an undisturbed withdrawal of wallet 1: deposit + (negative) credit - fee, once
+		dep1, cre1, err := account(w1)
+		if err != nil {
+			u.Violate("wire/read-failed", err.Error(), nil)
+			return
+		}
+		_, funds1 := node.OnChain(w1)
+		ra, erra := withdraw(w1)
+		rb, errb := withdraw(w1)
+		wireStep(u)
+		if erra != nil || errb != nil {
+			u.Violate("wire/read-failed", fmt.Sprint(erra, errb), nil)
+			return
+		}
+		depAfter, funds1After := node.OnChain(w1)
+		received1 := new(big.Int).Sub(funds1After, funds1)
+		// (the client keeps being billed until the moment of the withdrawal: the credit read a moment
+		// earlier is an upper bound of what is left)
+		upper := new(big.Int).Sub(new(big.Int).Add(dep1, cre1), fee)
+		lower := new(big.Int).Sub(upper, big.NewInt(1e13)) // 100 gwei per minute: far less than 1e13 wei in the seconds between
+		u.Observe(fmt.Sprintf("withdraw: first=%d second=%d", ra.Code(), rb.Code()))
+		switch {
+		case ra.Code() != 0:
+			u.Violate("wire/withdrawal-refused", fmt.Sprintf("%s: wallet 1 (deposit %s, credit %s) was refused: %+v", desc, dep1, cre1, ra.Error), nil)
+		case received1.Cmp(upper) > 0 || received1.Cmp(lower) < 0:
+			u.Violate("wire/withdrawal-wrong-amount", fmt.Sprintf("%s: wallet 1 (deposit %s, credit %s, fee %s) withdrew twice in a row and received %s wei in total, expected between %s and %s", desc, dep1, cre1, fee, received1, lower, upper), nil)
+		case depAfter.Sign() != 0:
+			u.Violate("wire/balance-not-cleared", fmt.Sprintf("%s: after the withdrawal wallet 1 still has %s wei deposited in the contract", desc, depAfter), nil)
+		}
+		u.Sample("real binary + real contract on a served simulated chain: minimum balance from the on-chain deposit; withdrawal with lost node replies; plain withdrawal twice")
 	}}
 }
